@@ -929,3 +929,130 @@ def rule_shadow(ctx):
                     ctx.ok(RULE_L3, key, m.where(), m.short,
                            detail={"verdict": "same type, but never used in a role the field has in the class"})
     ctx.floor(RULE_L3, tab["floor_methods_scanned"], n_methods, "solver-class methods scanned for shadowing")
+
+
+# =========================================================================== P4 ownership hand-over
+
+def _strip_casts(n):
+    while n is not None and n.get("k") in ("ImplicitCastExpr", "ParenExpr", "CStyleCastExpr", "CXXConstCastExpr",
+                                            "CXXStaticCastExpr", "CXXReinterpretCastExpr") and n.get("c"):
+        n = n["c"][0]
+    return n
+
+
+def _owned_fields(fx):
+    """(class, field) -> where: pointer members the class itself deletes, unless every such delete sits under a
+    condition on *another* member (`if (internal_data) delete[] A;` - ownership decided at run time)."""
+    owned = {}
+    conditional = set()
+    for fn in fx.functions.values():
+        if fn.body is None or fn.cls is None:
+            continue
+        for n in fn.walk():
+            if n.get("k") != "CXXDeleteExpr":
+                continue
+            a = _strip_casts((n.get("c") or [None])[0])
+            if a is None or not F.is_this_field(a):
+                continue
+            key = (strip_targs(a.get("owner") or fn.cls), a["member"])
+            guarded_by_other = False
+            for anc in fn.ancestors(n):
+                if anc.get("k") == "IfStmt" and isinstance(anc.get("cond"), dict):
+                    for x in F.walk(anc["cond"]):
+                        if F.is_this_field(x) and x.get("member") != a["member"]:
+                            guarded_by_other = True
+            if guarded_by_other:
+                conditional.add(key)
+            else:
+                owned.setdefault(key, fn.where(n))
+    return owned, conditional
+
+
+def rule_ownership_handover(ctx):
+    """P4: one owner per object.  A pointer member that its class deletes is *owned* by it.  A function that stores
+    a pointer parameter into an owned member of its own class *adopts* the argument (`void set_mat(SparseMatrix<>* p)
+    { delete A; A = p; }`).  When a method hands one of its class's owned members to an adopting function, both
+    objects would delete the same memory - unless the method gives the pointer up: the member is assigned (to null, to
+    a fresh object) after the call on every path to the exit.  gama hands matrices over like this in three places
+    (`input.set_mat(Asp); Asp = nullptr;`); a hand-over without giving up is a double free on the next run."""
+    fx = ctx.facts
+    owned, conditional = _owned_fields(fx)
+    adopt = {}
+    for fn in fx.functions.values():
+        if fn.body is None or fn.cls is None:
+            continue
+        pd = {p["decl"]: i for i, p in enumerate(fn.params) if "*" in p["t"]}
+        if not pd:
+            continue
+        for n in fn.walk():
+            if n.get("k") == "BinaryOperator" and n.get("op") == "=" and F.is_this_field(n["c"][0]):
+                r = _strip_casts(n["c"][1])
+                if r is not None and r.get("k") == "DeclRefExpr" and r["ref"].get("decl") in pd:
+                    key = (strip_targs(n["c"][0].get("owner") or fn.cls), n["c"][0]["member"])
+                    if key in owned:
+                        adopt.setdefault(fn.key, {})[pd[r["ref"]["decl"]]] = key
+        for i in fn.rec.get("inits", []) or []:
+            r = _strip_casts(i.get("init"))
+            key = (strip_targs(fn.cls), i.get("field"))
+            if r is not None and r.get("k") == "DeclRefExpr" and r["ref"].get("decl") in pd and key in owned:
+                adopt.setdefault(fn.key, {})[pd[r["ref"]["decl"]]] = key
+    # wrappers: a function that passes its own pointer parameter on to an adopting parameter adopts as well
+    for _ in range(4):
+        grew = False
+        for fn in fx.functions.values():
+            if fn.body is None:
+                continue
+            pd = {p["decl"]: i for i, p in enumerate(fn.params) if "*" in p["t"]}
+            if not pd:
+                continue
+            for c in fn.calls():
+                ad = adopt.get(c.get("calleeKey"))
+                if not ad or c.get("calleeKey") == fn.key:
+                    continue
+                args = F.call_args(c)
+                for i, tgt in ad.items():
+                    if i < len(args):
+                        a = _strip_casts(args[i])
+                        if a is not None and a.get("k") == "DeclRefExpr" and a["ref"].get("decl") in pd:
+                            j = pd[a["ref"]["decl"]]
+                            if adopt.setdefault(fn.key, {}).get(j) is None:
+                                adopt[fn.key][j] = tgt
+                                grew = True
+        if not grew:
+            break
+    n = 0
+    for fn in sorted(fx.functions.values(), key=lambda f: f.key):
+        if fn.body is None or fn.cls is None:
+            continue
+        for c in fn.calls():
+            ad = adopt.get(c.get("calleeKey"))
+            if not ad:
+                continue
+            args = F.call_args(c)
+            for i, tgt in sorted(ad.items()):
+                if i >= len(args):
+                    continue
+                a = _strip_casts(args[i])
+                if a is None or not F.is_this_field(a):
+                    continue
+                src = (strip_targs(a.get("owner") or fn.cls), a["member"])
+                if src not in owned:
+                    continue          # the caller never deletes it: a plain hand-over
+                ctx.saw(fn)
+                n += 1
+                cfg = fn.cfg
+                gives_up = [w for w in fn.walk() if w.get("k") == "BinaryOperator" and w.get("op") == "="
+                            and F.is_this_field(w["c"][0], a["member"])]
+                ok = any(cfg.postdominates(w, c) for w in gives_up)
+                callee = fx.functions.get(c.get("calleeKey"))
+                ctx.report(RULE, "P4:%s:%s->%s" % (fn.sig, a["member"], F.short(callee.qn) if callee else "?"), ok,
+                           fn.where(c), fn.short,
+                           "" if ok else "`%s` is deleted by %s (%s) and is handed to %s, which stores it in its own `%s` and "
+                           "deletes it too; %s does not give the pointer up after the call (no assignment to `%s` on every "
+                           "path to the exit): the object is freed twice" % (
+                               a["member"], F.short(src[0]), owned[src], F.short(callee.qn) if callee else "?", tgt[1],
+                               fn.short, a["member"]),
+                           {"owner_delete": owned[src], "adopted_into": "%s::%s" % (F.short(tgt[0]), tgt[1])})
+    ctx.floor(RULE, 4, n, "ownership hand-overs of an owned member")
+    return {"owned_members": len(owned), "conditionally_owned": sorted("%s::%s" % (F.short(c), f) for c, f in conditional),
+            "adopting_functions": len(adopt)}
